@@ -11,7 +11,8 @@ from iocommon import *
 
 
 def write_env(prog, f_write):
-    """stream stub: write(slice) -> Ok(n), 1 <= n <= len | WouldBlock | another error; every call is recorded"""
+    """stream stub: write(slice) -> Ok(n), 0 <= n <= len (a transport may accept nothing without saying would-block, e.g. a TLS
+    layer busy with its own records) | WouldBlock | another error; every call is recorded"""
     S = []
 
     def write_stub(ex, st, fn, argv):
@@ -20,7 +21,7 @@ def write_env(prog, f_write):
         outs = []
         n = st.fresh_bv('nwritten', 64)
         s_ok, s_wb, s_err, s_int = st, st.fork(), st.fork(), st.fork()
-        s_ok.pc += [z3.UGE(n, 1), z3.ULE(n, sl.len)]
+        s_ok.pc += [z3.ULE(n, sl.len)]
         s_ok.pc.append(z3.Implies(z3.ULE(sl.len, 1 << 40), z3.ULE(n, 1 << 40)))   # implied by the line above; spares the solver the carry chain of pos += n
         s_ok.trace.append(('ok', n))
         s_wb.trace.append(('wouldblock',))
@@ -492,7 +493,7 @@ fn verif_replay_c01d() {
 NATIVE = r'''
 use super::*;
 use amq_protocol::frame::AMQPFrame;
-struct Script { steps: Vec<i32>, i: usize, accepted: Vec<u8> }   // step > 0: accept up to that many bytes; 0: WouldBlock; -1: error; -2: EINTR
+struct Script { steps: Vec<i32>, i: usize, accepted: Vec<u8> }   // step > 0: accept up to that many bytes; 0: WouldBlock; -1: error; -2: EINTR; -3: Ok(0), nothing accepted
 impl std::io::Read for Script { fn read(&mut self, _: &mut [u8]) -> std::io::Result<usize> { Err(std::io::Error::new(std::io::ErrorKind::WouldBlock, "wb")) } }
 impl std::io::Write for Script {
     fn write(&mut self, buf: &[u8]) -> std::io::Result<usize> {
@@ -500,6 +501,7 @@ impl std::io::Write for Script {
         self.i += 1;
         if st == 0 { return Err(std::io::Error::new(std::io::ErrorKind::WouldBlock, "wb")); }
         if st == -2 { return Err(std::io::Error::new(std::io::ErrorKind::Interrupted, "eintr")); }
+        if st == -3 { return Ok(0); }
         if st < 0 { return Err(std::io::Error::new(std::io::ErrorKind::Other, "boom")); }
         let n = std::cmp::min(st as usize, buf.len());
         self.accepted.extend_from_slice(&buf[..n]);
@@ -519,7 +521,7 @@ fn verif_replay_c01() {
     // 1. protocol header
     { let i = Inner::new(HeartbeatTimers::default(), 16); if &i.outbuf[0..] != b"AMQP\x00\x00\x09\x01" { bad.push("protocol-header".into()); } }
     // 2. write loop: every script of accepts / would-blocks / errors delivers the queued bytes once, in order
-    let alphabet: Vec<i32> = vec![1, 2, 3, 7, 0, -1, -2];
+    let alphabet: Vec<i32> = vec![1, 2, 3, 7, 0, -1, -2, -3];
     let mut scripts: Vec<Vec<i32>> = vec![vec![]];
     for _ in 0..4 { let mut nxt = Vec::new(); for s in scripts.iter() { for a in alphabet.iter() { let mut t = s.clone(); t.push(*a); nxt.push(t); } } scripts.extend(nxt); scripts.sort(); scripts.dedup(); }
     let mut runs = 0u32;
